@@ -426,7 +426,14 @@ class FTPProcessorSession(BaseProcessorSession):
 
             _logger.debug('symlink {} -> {}', symlink_path, link_target)
 
-            os.symlink(link_target, symlink_path)
+            try:
+                os.symlink(link_target, symlink_path)
+            except (OSError, ValueError) as error:
+                _logger.warning(
+                    _('Unable to create symbolic link {symlink_path}: {error}'),
+                    symlink_path=ascii(symlink_path), error=error
+                )
+                return
 
             _logger.info(
                 _('Created symbolic link {symlink_path} to target {symlink_target}.'),
